@@ -198,6 +198,81 @@ let run_hp toks cout =
     | _ -> fail (-1) "unparsable output"
   end
 
+(* ------------------------------------------------------------------------------------------ computed elements
+   hc: the set elements are value ids assigned by the C driver (values are RESULTS of polynomial operations;
+   what an operation computes is C01's business and is taken from the C output: "=" and the register value ids
+   "R:" of compute steps are echoed).  Checked here: with h = the hashes of the independently built polynomials
+   (group "T"), every insert / remove / contains - asked with the computed object itself or with an independently
+   built equal polynomial - behaves as on a mathematical set of VALUES. *)
+let run_hc toks cout =
+  let toks = match toks with _m :: rest -> rest | [] -> [] in
+  let (specs, _, rest) = read_pool toks false in
+  let p = Array.length specs in
+  let (nr, ops) = match rest with x :: r -> (int_of_string x, r) | [] -> (1, []) in
+  let groups = Array.of_list (split_groups cout) in
+  let ng = Array.length groups in
+  let nops = List.length ops in
+  if ng <> nops + 3 then raise (Stop "CHECK fail the implementation's line does not have one group per operation (HANG / ABORT?)");
+  let pool_vid = match groups.(0) with
+    | "C" :: v when List.length v = p -> Array.of_list (List.map int_of_string v)
+    | _ -> raise (Stop "CHECK fail unparsable header") in
+  let hs = match groups.(ng - 2) with
+    | "T" :: v -> Array.of_list (List.map n_of_string v)
+    | _ -> raise (Stop "CHECK fail no hash table in the implementation's output") in
+  let h (e : int) : n = if e >= 0 && e < Array.length hs then hs.(e) else N0 in
+  let zero = 0 in
+  let step s o = match hs_step eqb h zero s o with Some x -> x | None -> raise (Stop "FUEL") in
+  let regs = ref (Array.make nr 0) in
+  let known = ref (Array.fold_left max 0 pool_vid + 1) in
+  let src_vid a =
+    let k = int_of_string (tail_from a 1) in
+    if a.[0] = 'p' then pool_vid.(k) else !regs.(k) in
+  let buf = Buffer.create 4096 in
+  Buffer.add_string buf (String.concat " " groups.(0));
+  let s = ref hs_new in
+  List.iteri (fun idx op ->
+    Buffer.add_string buf " ;";
+    let g = groups.(idx + 1) in
+    let c_ret = match g with r :: _ -> r | [] -> "?" in
+    let c_regs = (match List.rev g with
+      | r :: _ when String.length r > 2 && String.sub r 0 2 = "R:" ->
+        Array.of_list (List.map int_of_string (String.split_on_char '.' (tail_from r 2)))
+      | _ -> raise (Stop "CHECK fail unparsable group")) in
+    let arg = tail_from op 1 in
+    let out =
+      match op.[0] with
+      | 'h' -> "-"
+      | 'C' -> regs := c_regs; c_ret                      (* the computed values are taken from C *)
+      | 'i' | 'I' -> (match step !s (OInsert (src_vid arg)) with (s', RBool b) -> s := s'; string_of_bool01 b | _ -> "?")
+      | 'r' | 'R' -> (match step !s (ORemove (src_vid arg)) with (s', RBool b) -> s := s'; string_of_bool01 b | _ -> "?")
+      | 'm' -> (match step !s (OInsertMove (src_vid arg)) with
+                | (s', RMoved (b, _)) -> s := s'; string_of_bool01 b ^ (if b then "z" else "s") | _ -> "?")
+      | 'k' -> (match step !s OClear with (s', _) -> s := s'; "-")
+      | 'z' ->
+        let (s', _) = step !s OClose in
+        s := s';
+        let n = int_of_nat (hs_size s') in
+        let got = ref [] in
+        for k = 0 to n - 1 do
+          (match step s' (OAt (nat_of_int k)) with (_, RElem (Some e)) -> got := e :: !got | _ -> got := (-2) :: !got)
+        done;
+        "a:" ^ str_ids (List.sort compare !got)
+      | _ -> "?" in
+    Array.iter (fun v -> if v + 1 > !known then known := v + 1) !regs;
+    Buffer.add_char buf ' '; Buffer.add_string buf out;
+    Buffer.add_char buf ' '; Buffer.add_string buf (string_of_int (int_of_nat (hs_size !s)));
+    Buffer.add_char buf ' ';
+    if closed !s then Buffer.add_string buf "closed closed"
+    else begin
+      let bit e = match hs_contains eqb h !s e with Some b -> string_of_bool01 b | None -> raise (Stop "FUEL") in
+      for e = 0 to !known - 1 do Buffer.add_string buf (bit e) done;
+      Buffer.add_char buf ' ';
+      Array.iter (fun e -> Buffer.add_string buf (bit e)) !regs
+    end;
+    Buffer.add_string buf (" R:" ^ str_ids (Array.to_list !regs))) ops;
+  Buffer.add_string buf (" ; " ^ String.concat " " groups.(ng - 2) ^ " ; leak=0");
+  Buffer.contents buf
+
 (* ------------------------------------------------------------------------------------------ vector *)
 let run_vc toks =
   let (specs, _, ops) = read_pool toks false in
@@ -229,5 +304,6 @@ let run (toks : string list) (cout : string list) : string =
     | "hs" :: rest -> run_hs rest cout
     | "hp" :: rest -> run_hp rest cout
     | "vc" :: rest -> run_vc rest
+    | "hc" :: rest -> run_hc rest cout
     | _ -> "UNKNOWN-OP"
   with Stop s -> s
